@@ -131,6 +131,32 @@ Theorem C01_compiled_rule_emits_every_derived_row :
   sql_row app (x_cols (extract r)) final rho = Some (head_row app tau r).
 Proof. exact compile_complete. Qed.
 
+(* The head row is a function of the row choice: two derivations for the same rows of the FROM product give the
+   same head row, so one row choice contributes exactly one row to the bag (no double counting by valuations). *)
+Theorem C01_head_row_is_a_function_of_the_row_choice :
+  forall app is_x r final rho tau1 tau2,
+  compiled is_x r final ->
+  (forall tau, tau = tau1 \/ tau = tau2 ->
+     cells_ok tau (x_cols (extract r)) rho /\
+     (forall l r0, In (l, r0) (fst (extract_head (k_head r) 0)) -> Elim.peval app tau l = Elim.peval app tau r0) /\
+     derives app tau rho r /\
+     (forall s1 l r0, represents app (map fst (x_cols (extract r))) (x_rs (extract r)) s1 ->
+        In (l, r0) (unifs s1) -> Elim.peval app tau l <> VNull)) ->
+  head_row app tau1 r = head_row app tau2 r.
+Proof. exact head_row_determined_by_row_choice. Qed.
+
+Theorem C01_compiled_rule_row_is_exactly_the_derived_row :
+  forall app is_x r final rho tau,
+  compiled is_x r final -> wf_choice (x_cols (extract r)) rho ->
+  cells_ok tau (x_cols (extract r)) rho ->
+  (forall l r0, In (l, r0) (fst (extract_head (k_head r) 0)) -> Elim.peval app tau l = Elim.peval app tau r0) ->
+  derives app tau rho r ->
+  (forall s1 l r0, represents app (map fst (x_cols (extract r))) (x_rs (extract r)) s1 ->
+     In (l, r0) (unifs s1) -> Elim.peval app tau l <> VNull) ->
+  exists out tau', sql_row app (x_cols (extract r)) final rho = Some out /\
+     out = head_row app tau r /\ derives app tau' rho r /\ head_row app tau' r = out.
+Proof. exact compile_exact. Qed.
+
 (* non-vacuity: Q(y, x) :- T(x, z), z == 2, y == x + 1   over T = {(1,2), (5,3)} *)
 Definition ex_rule : crule :=
   {| k_head := [(0, PVar 1); (1, PVar 0)];
